@@ -36,7 +36,7 @@ ITEMS = [
                  assert(self.reader.remaining() == rem0.skip(needed as int));'''),
          ],
          loops={
-             1: dict(invariant_except_break=[
+             1: dict(header=r'^loop$', invariant_except_break=[
                     ('unchanged', '''self.reader.remaining() == rem0 && rem0 == old(self).reader.remaining()
                         && self.err.content() == old(self).err.content() && self.total_bytes == old(self).total_bytes
                         && self.max_bytes == old(self).max_bytes''')],
@@ -45,7 +45,7 @@ ITEMS = [
                         && self.err.content() == old(self).err.content() && self.total_bytes == old(self).total_bytes
                         && self.max_bytes == old(self).max_bytes''')],
                      decreases='self.reader.interrupts_left()'),
-             2: dict(invariant=[
+             2: dict(header=r'^while read < needed - 1$', invariant=[
                     ('assembled_prefix', '''2 <= needed as int <= 4 && read as int <= needed as int - 1 && lead_width(first) == needed as int && buf@[0] == first
                         && read as int + 1 <= rem0.len() && buf@.subrange(0, read as int + 1) =~= rem0.take(read as int + 1)
                         && self.reader.remaining() == rem0.skip(read as int + 1) && rem0 == old(self).reader.remaining()'''),
